@@ -37,9 +37,10 @@ CONSTANTS NObj, MaxId, Nss, Maxes, Kinds, Toggles,
           Srvs,                \* servers in the process: {1} or {1, 2}
           Ots,                 \* OperationTimeout values on Open
           Coes,                \* ContinueOnError values on Open
+          Flts,                \* filter classes of the association opens
           SharedContextTable,  \* BOOLEAN (must-fail switch)
           ExpireSessions,      \* BOOLEAN (must-fail switch)
-          RandArgs             \* BOOLEAN: simulation only - srv/ot/coe of a call
+          RandArgs             \* BOOLEAN: simulation only - srv/ot/coe/flt of a call
                                \* are drawn with RandomElement instead of being
                                \* enumerated (keeps the successor sets small)
 
@@ -56,6 +57,8 @@ OtsAll == {NoOt, 0, 1, 40}
 CoesOne == {NoCoe}
 CoesTwo == {NoCoe, 1}
 CoesAll == {NoCoe, 0, 1}
+FltsOne == {NoFlt}
+FltsAll == {NoFlt, 1, 2}
 DefaultTimeout == 40               \* default_server_timeout in _open_response
 
 MaxesSmall == {NoMax, 0, 1, 2, 5}
@@ -80,7 +83,9 @@ Take(q, n) == SubSeq(q, 1, IF n < Len(q) THEN n ELSE Len(q))
 DropN(q, n) == SubSeq(q, n + 1, Len(q))
 Without(f, id) == [x \in (DOMAIN f) \ {id} |-> f[x]]
 
-(* _open_response *)
+(* _open_response.  The filter arguments (flt) do not appear: the Open...    *)
+(* methods of the mock hand ALL arguments to the method of the traditional  *)
+(* operation and page its result, i.e. `all` already is the filtered result *)
 ImplOpen(st, v, k, ns, all, tradok, m, ot, coe) ==
   IF ~tradok \/ ns \notin st.liveNs[v] THEN <<Err(3), st>>  \* traditional op raised
   ELSE IF ~st.pullOn[v] THEN <<Err(7), st>>                  \* NOT_SUPPORTED
@@ -121,28 +126,30 @@ ImplClose(st, v, id) ==
        THEN <<Ok(<<>>, FALSE, 0), [st EXCEPT !.ctx[T(v)] = Without(@, id)]>>
        ELSE <<Err(InvalidEnumCtx), st>>
 
-Call(op, v, k, ns, all, tradok, m, id, ot, coe) ==
+Call(op, v, k, ns, all, tradok, m, id, ot, coe, flt) ==
   [op |-> op, srv |-> v, k |-> k, ns |-> ns, all |-> all, tradok |-> tradok,
-   m |-> m, id |-> id, ot |-> ot, coe |-> coe]
+   m |-> m, id |-> id, ot |-> ot, coe |-> coe, flt |-> flt]
 
 (* srv = 0 / ot, coe omitted: placeholders resolved by the random draw *)
 SrvsGen == IF RandArgs THEN {0} ELSE Srvs
 OtsGen  == IF RandArgs THEN {NoOt} ELSE Ots
 CoesGen == IF RandArgs THEN {NoCoe} ELSE Coes
+FltsGen(k) == IF RandArgs \/ k \notin AssocKinds THEN {NoFlt} ELSE Flts
 
 Calls ==
-  {Call("Open", v, k, ns, R, tok, m, 0, ot, coe) :
-      v \in SrvsGen, k \in Kinds, ns \in Nss, R \in Results, tok \in BOOLEAN,
-      m \in Maxes, ot \in OtsGen, coe \in CoesGen}
-  \cup {Call("Pull", v, pk, 0, <<>>, TRUE, m, id, NoOt, NoCoe) :
+  UNION {{Call("Open", v, k, ns, R, tok, m, 0, ot, coe, flt) :
+      v \in SrvsGen, ns \in Nss, R \in Results, tok \in BOOLEAN,
+      m \in Maxes, ot \in OtsGen, coe \in CoesGen, flt \in FltsGen(k)}
+         : k \in Kinds}
+  \cup {Call("Pull", v, pk, 0, <<>>, TRUE, m, id, NoOt, NoCoe, NoFlt) :
       v \in SrvsGen, pk \in {PullKindOf(k) : k \in Kinds} \cup {3},
       m \in Maxes \ {NoMax}, id \in 1..MaxId}
-  \cup {Call("Close", v, 0, 0, <<>>, TRUE, 0, id, NoOt, NoCoe) :
+  \cup {Call("Close", v, 0, 0, <<>>, TRUE, 0, id, NoOt, NoCoe, NoFlt) :
       v \in SrvsGen, id \in 1..MaxId}
   \cup (IF Toggles
-        THEN {Call("RemoveNs", v, 0, ns, <<>>, TRUE, 0, 0, NoOt, NoCoe) :
+        THEN {Call("RemoveNs", v, 0, ns, <<>>, TRUE, 0, 0, NoOt, NoCoe, NoFlt) :
                  v \in SrvsGen, ns \in Nss}
-             \cup {Call("SetPull", v, 0, 0, <<>>, b, 0, 0, NoOt, NoCoe) :
+             \cup {Call("SetPull", v, 0, 0, <<>>, b, 0, 0, NoOt, NoCoe, NoFlt) :
                  v \in SrvsGen, b \in BOOLEAN}
         ELSE {})
 
@@ -160,11 +167,12 @@ ImplStep(st, c) ==
 Event(c, r, st2) ==
   [op |-> c.op, srv |-> c.srv, k |-> c.k, ns |-> c.ns, all |-> c.all,
    tradok |-> c.tradok, m |-> c.m, id |-> c.id, ot |-> c.ot, coe |-> c.coe,
+   flt |-> c.flt,
    ok |-> r.ok, code |-> r.code, objs |-> r.objs,
    eos |-> r.eos, ctx |-> r.ctx,
    nctx |-> Cardinality(DOMAIN st2.ctx[T(c.srv)])]
 
-NoPick == [srv |-> 0, ot |-> NoOt, coe |-> NoCoe, far |-> 0]
+NoPick == [srv |-> 0, ot |-> NoOt, coe |-> NoCoe, far |-> 0, flt |-> NoFlt]
 Init == /\ si = ImplInit /\ s = InitState(Nss, Srvs) /\ bad = {} /\ hist = <<>>
         /\ pick = NoPick
 
@@ -175,7 +183,9 @@ OwnerOf(st, id, dflt) ==
   IF o = {} THEN dflt ELSE CHOOSE v \in o : TRUE
 Resolve(c, p) ==
   IF ~RandArgs THEN c
-  ELSE IF c.op = "Open" THEN [c EXCEPT !.srv = p.srv, !.ot = p.ot, !.coe = p.coe]
+  ELSE IF c.op = "Open"
+       THEN [c EXCEPT !.srv = p.srv, !.ot = p.ot, !.coe = p.coe,
+                      !.flt = IF c.k \in AssocKinds THEN p.flt ELSE NoFlt]
   ELSE IF c.op \in {"Pull", "Close"}
        THEN [c EXCEPT !.srv = IF p.far = 1 THEN p.srv
                               ELSE OwnerOf(si, c.id, p.srv)]
@@ -184,7 +194,8 @@ Resolve(c, p) ==
 Do(c0) ==
   /\ pick' = IF RandArgs
              THEN [srv |-> RandomElement(Srvs), ot |-> RandomElement(Ots),
-                   coe |-> RandomElement(Coes), far |-> RandomElement(1..4)]
+                   coe |-> RandomElement(Coes), far |-> RandomElement(1..4),
+                   flt |-> RandomElement(Flts)]
              ELSE pick
   /\ LET c  == Resolve(c0, pick')
          rs == ImplStep(si, c)
